@@ -31,6 +31,7 @@ func main() {
 		{Name: "journal-mode-switches-2pg-5ops", Cfg: "MC_DBFile_modeswitch.cfg", Timeout: 10 * time.Minute, MaxKeep: core.Pick(args, 500, 6000)},
 		{Name: "rb-free-page-reuse-3pg-3ops", Cfg: "MC_DBFile_rb_free.cfg", Timeout: 10 * time.Minute, MaxKeep: core.Pick(args, 400, 0)},
 		{Name: "lock-page-layout-4pg", Cfg: "MC_DBFile_lock_rb.cfg", Timeout: 10 * time.Minute, MaxKeep: core.Pick(args, 3, 48), Layouts: []sim.Layout{sim.L4()}, Workers: 3, MinNs: 4},
+		{Name: "rb-never-written-pages-4pg-3ops", Cfg: "MC_DBFile_holes.cfg", Timeout: 10 * time.Minute, MaxKeep: core.Pick(args, 700, 0), Layouts: []sim.Layout{sim.L0(512), sim.L0(4096)}},
 		{Name: "deep-simulation-4pg-8ops", Cfg: "MC_DBFile_sim.cfg", Simulate: true, Num: core.Pick(args, 40, 400), Depth: 200, Timeout: 10 * time.Minute, MaxKeep: core.Pick(args, 150, 3000)},
 	})
 }
